@@ -212,14 +212,16 @@ def run(ctx):
                            detail={"assumption": "similarity rule returns valid k-mers"})
                 elif kind == "param":
                     lower = upper = False
+                    from ..facts import disjuncts as _dj
+                    from ..exprnorm import canon as _cn, spec as _sp
                     for st in walk_local(f):
                         if isinstance(st, ast.If) and any(isinstance(b, ast.Raise) for b in st.body):
-                            for c in ast.walk(st.test):
-                                if isinstance(c, ast.Compare) and isinstance(c.left, ast.Name) and c.left.id == origin:
-                                    if isinstance(c.ops[0], ast.Lt) and isinstance(c.comparators[0], ast.Constant) and c.comparators[0].value == 0:
-                                        lower = True
-                                    if isinstance(c.ops[0], ast.GtE):
-                                        upper = True
+                            for d_ in _dj(st.test):
+                                cd = _cn(d_)
+                                if isinstance(cd, tuple) and len(cd) == 3 and cd[0] == "<" and cd[1] == origin and cd[2] == _sp("0"):
+                                    lower = True            # origin < 0
+                                if isinstance(cd, tuple) and len(cd) == 3 and cd[0] == "<=" and cd[2] == origin:
+                                    upper = True            # origin >= <length>
                     ctx.ob("R1.scalar-kmer-two-sided", KT, qual, construct, lower and upper,
                            f"the caller's k-mer code `{origin}` subscripts the pointer array "
                            + ("under boundscheck(False) " if unchecked else "")
@@ -286,27 +288,31 @@ def run(ctx):
 
     # from_positions: explicit two-sided guard
     fp = s.func("KmerTable.from_positions")
-    two = any(isinstance(st, ast.If) and any(isinstance(b, ast.Raise) for b in st.body)
-              and isinstance(st.test, ast.BoolOp) and isinstance(st.test.op, ast.Or)
-              and any(isinstance(c, ast.Compare) and isinstance(c.ops[0], ast.Lt) for c in st.test.values)
-              and any(isinstance(c, ast.Compare) and isinstance(c.ops[0], ast.GtE) for c in st.test.values)
-              for st in ast.walk(fp))
+    from ..facts import disjuncts as _dj2
+    from ..exprnorm import canon as _cn2, spec as _sp2
+    two = False
+    for st in ast.walk(fp):
+        if isinstance(st, ast.If) and any(isinstance(b, ast.Raise) for b in st.body):
+            ds = [_cn2(d_) for d_ in _dj2(st.test)]
+            lows = {repr(d_[1]) for d_ in ds if isinstance(d_, tuple) and len(d_) == 3 and d_[0] == "<" and d_[2] == _sp2("0")}
+            highs = {repr(d_[2]) for d_ in ds if isinstance(d_, tuple) and len(d_) == 3 and d_[0] == "<=" and d_[1] == _sp2("alph_length")}
+            two = two or bool(lows & highs)
     ctx.ob("R1.scalar-kmer-two-sided", KT, "KmerTable.from_positions", "kmer < 0 or kmer >= alph_length", two,
            "dictionary keys are caller data and need a two-sided check", fp.lineno)
     # validators themselves
     def own_test(f):
         for st in ast.walk(f):
             if isinstance(st, ast.If) and any(isinstance(b, ast.Raise) and "AlphabetError" in ast.unparse(b) for b in st.body):
-                parts = st.test.values if isinstance(st.test, ast.BoolOp) and isinstance(st.test.op, ast.Or) else [st.test]
-                vars_ = set()
+                from ..facts import disjuncts as _dj
+                from ..exprnorm import canon as _cn, spec as _sp
                 lo = hi = None
-                for p_ in parts:
-                    if isinstance(p_, ast.Call) and call_name(p_) == "np.any" and len(p_.args) == 1 and isinstance(p_.args[0], ast.Compare):
-                        c_ = p_.args[0]
-                        if same_expr(c_.comparators[0], "0") and isinstance(c_.ops[0], ast.Lt):
-                            lo = ast.unparse(c_.left)
-                        if isinstance(c_.ops[0], ast.GtE) and same_expr(c_.comparators[0], "len(kmer_alphabet)"):
-                            hi = ast.unparse(c_.left)
+                for d_ in _dj(st.test):
+                    cd = _cn(d_)
+                    # element condition  X < 0   /   X >= len(kmer_alphabet)  (canonical: ("<", X, 0) / ("<=", len, X))
+                    if isinstance(cd, tuple) and len(cd) == 3 and cd[0] == "<" and cd[2] == _sp("0"):
+                        lo = repr(cd[1])
+                    if isinstance(cd, tuple) and len(cd) == 3 and cd[0] == "<=" and cd[1] == _sp("len(kmer_alphabet)"):
+                        hi = repr(cd[2])
                 if lo is not None and lo == hi:
                     return lo
         return None
